@@ -429,6 +429,11 @@ def box_lemmas(c, i, pt):
               "| assert (Hc : %s * sin (d2r %s) - %s * cos (d2r %s) < - sinslack) by (%s); lra ]"
               % (cR(y), cR(a0), cR(x), cR(a0), ivx, cR(x), cR(a1), cR(y), cR(a1), ivx))
         neg = ("~ (" + st1 + ")", ("intros [Hz Hl]; first [ %s | %s ]." % (nz, nl)) if narrow else ("intros Hz; %s." % nz))
+        if abs(z) > 0.998:
+            # within ~3.6 deg of a pole x and y are sqrt(1 - v^2)-conditioned (an error of 1 ulp in the sampled v moves them by
+            # 1e-16 / rxy > sinslack): the MODEL certificate in the components is borderline and skipped (counted); the property
+            # certificate above (z range, unit norm, longitude half-planes) still applies, as does system='eq' at the poles
+            return (st1, pr1), None, neg
         return (st1, pr1), (st2, pr2), neg
     ra, dec = pt
     st1 = "box_point_fl %s (%s, %s) /\\ on_sky (%s, %s)" % (bx, cR(ra), cR(dec), cR(ra), cR(dec))
@@ -583,7 +588,10 @@ def geometry_prepare(ctx, cases):
             prop, model, neg = (cap_lemmas if c["kind"] == "cap" else box_lemmas)(c, i, pt)
             if prop is not None:
                 items.append([c, i, pt, "property", prop, neg, out])
-            items.append([c, i, pt, "model", model, None, out])
+            if model is not None:
+                items.append([c, i, pt, "model", model, None, out])
+            else:
+                ctx.count("borderline-skipped: xyz model certificate within 3.6 deg of a pole")
     return items
 
 
